@@ -30,6 +30,7 @@ func register(e Extractor) { extractors = append(extractors, e) }
 // Ctx collects the outputs of all extractors; files are written only if every extractor succeeded.
 type Ctx struct {
 	Repo  string
+	Root  string // root of the verification framework (for expectation files in props/), derived from -out
 	files map[string]string
 	facts map[string]interface{}
 }
@@ -57,6 +58,10 @@ func main() {
 		os.Exit(2)
 	}
 	ctx := &Ctx{Repo: *repo, files: map[string]string{}, facts: map[string]interface{}{}}
+	if abs, err := filepath.Abs(*out); err == nil {
+		// <root>/lean/TeleportModel/Generated
+		ctx.Root = filepath.Dir(filepath.Dir(filepath.Dir(abs)))
+	}
 	sort.Slice(extractors, func(i, j int) bool { return extractors[i].Name < extractors[j].Name })
 	failed := false
 	for _, e := range extractors {
